@@ -2815,6 +2815,149 @@ def index_norm(repo, out):
             out.unsure(fn, fn.node, 'no index-array producer call found')
 
 
+# =========================================================================== C01.driver-order
+_ORDERED_DRIVER_LISTS = ('_get_ordered_nl_responses', '_get_nl_dvs', '_get_lin_dvs')
+_UNORDERING = ('sorted', 'set', 'frozenset', 'Counter')
+TOTALS_META_FUNCS = ('_get_totals_metadata', '_get_totals_of_metadata', '_get_totals_wrt_metadata')
+
+
+@rule('C01.driver-order', floor=8)
+def driver_order(repo, out):
+    """A requested of/wrt list counts as "the driver's own variables" (has_custom_derivs stays False, so the
+    driver's colouring and unit/scaling tables are applied) only when it equals, as an ordered sequence, a
+    reference list that is itself in the driver's order: no sorted()/set() comparison, and reference lists
+    of source names are mapped from the driver-ordered name list, not enumerated from another container."""
+    for name in TOTALS_META_FUNCS:
+        fn = repo.func(GROUP, f'Group.{name}')
+        cx = Ctx(fn)
+        ps = set(params(fn))
+
+        def origin(e, at, depth=0):
+            """Follow local aliases and list()/tuple() wrappers."""
+            while depth < 8:
+                depth += 1
+                if isinstance(e, ast.Name):
+                    if e.id in ps and cx.rd.defs(at, e.id) <= {cx.g.entry}:
+                        return e
+                    v, d = cx.alias(e.id, at)
+                    if v is None:
+                        return e
+                    e, at = v, d
+                    continue
+                if isinstance(e, ast.Call) and astx.call_name(e) in ('list', 'tuple') and len(e.args) == 1:
+                    e = e.args[0]
+                    continue
+                if isinstance(e, ast.IfExp):
+                    # `list(wrt) if wrt is not None else []`
+                    e = e.body
+                    continue
+                return e
+            return e
+
+        def classify(e, at, depth=0):
+            """'request' | 'ordered' | ('container', text) | ('unordering', text) | None"""
+            if depth > 4:
+                return None
+            if isinstance(e, ast.Call) and astx.call_name(e) in _UNORDERING:
+                return ('unordering', astx.call_name(e))
+            if isinstance(e, ast.Name) and e.id not in ps:
+                ds = cx.rd.defs(at, e.id)
+                kinds = set()
+                for d in ds:
+                    v = assigned_value(d.ast, e.id) if d.kind == 'stmt' else None
+                    kinds.add(classify(v, d, depth + 1) if v is not None else None)
+                return kinds.pop() if len(kinds) == 1 else None
+            o = origin(e, at)
+            if isinstance(o, ast.Name) and o.id in ps:
+                return 'request'
+            if isinstance(o, ast.Call) and astx.call_name(o) in _UNORDERING:
+                return ('unordering', astx.call_name(o))
+            if isinstance(o, ast.Call) and astx.callee_attr(o) in _ORDERED_DRIVER_LISTS and \
+                    astx.path(astx.receiver(o)) == 'driver':
+                return 'ordered'
+            if isinstance(o, ast.ListComp) and len(o.generators) == 1:
+                it = o.generators[0].iter
+                k = classify(it, at, depth + 1)
+                if k == 'ordered':
+                    return 'ordered'
+                base = it
+                if isinstance(base, ast.Call) and astx.callee_attr(base) in ('items', 'keys', 'values'):
+                    base = astx.receiver(base)
+                if astx.path(base) and astx.path(base).startswith('driver.'):
+                    return ('container', astx.path(base))
+                return None
+            return None
+
+        flags = [st for st in astx.walk_stmts(fn.node.body) if isinstance(st, ast.Assign) and
+                 any(isinstance(t, ast.Name) and t.id == 'has_custom_derivs' for t in st.targets) and
+                 isinstance(st.value, ast.Constant) and st.value.value is True]
+        if not flags:
+            out.bad(fn, fn.node, 'has_custom_derivs is never set: any requested of/wrt list is treated as the '
+                    "driver's own, so the driver colouring is applied to arbitrary jacobians",
+                    key=f'driver-order:{name}:never-custom')
+            continue
+        seen = set()
+        for st in flags:
+            for a in astx.ancestors(st):
+                if isinstance(a, (ast.FunctionDef, ast.AsyncFunctionDef)):
+                    break
+                if not isinstance(a, ast.If):
+                    continue
+                for cmp_ in [x for x in astx.walk(a.test) if isinstance(x, ast.Compare)]:
+                    if id(cmp_) in seen or len(cmp_.ops) != 1 or not isinstance(cmp_.ops[0], (ast.NotEq, ast.Eq)):
+                        continue
+                    at = cx.node(a)
+                    sides = [classify(cmp_.left, at), classify(cmp_.comparators[0], at)]
+                    if 'request' not in sides and not any(isinstance(k, tuple) and k[0] == 'unordering'
+                                                          for k in sides):
+                        continue        # not a comparison of the request with a reference list
+                    seen.add(id(cmp_))
+                    side = 'of' if any(n in ('of', 'list_of') for n in astx.names(cmp_)) else 'wrt'
+                    un = [k for k in sides if isinstance(k, tuple) and k[0] == 'unordering']
+                    cont = [k for k in sides if isinstance(k, tuple) and k[0] == 'container']
+                    if un:
+                        out.bad(fn, a, f'`{astx.src(cmp_)}` compares the requested list with the driver\'s list '
+                                f'through {un[0][1]}(): a permutation of the driver\'s variables is taken for the '
+                                'driver\'s own list, and the driver colouring (built for the driver\'s row/column '
+                                'order) is applied to a differently ordered jacobian',
+                                key=f'driver-order:{name}:{side}:unordered-compare')
+                    elif cont:
+                        out.bad(fn, a, f'`{astx.src(cmp_)}`: the reference list of source names is enumerated in '
+                                f'the order of {cont[0][1]} (insertion order), not mapped from the driver-ordered '
+                                'name list (objectives first): a request listing the sources in that other order '
+                                'is taken for the driver\'s own list and the driver colouring is applied to a '
+                                'jacobian with permuted rows', key=f'driver-order:{name}:{side}:reference-order')
+                    elif set(sides) == {'request', 'ordered'}:
+                        out.ok(fn, a, f'`{astx.src(cmp_)}`: ordered comparison with a driver-ordered list')
+                    else:
+                        out.unsure(fn, a, f'cannot classify the lists compared in `{astx.src(cmp_)}`')
+
+
+# =========================================================================== clauses shared with C02 / C11
+def _reuse(mod, func):
+    try:
+        m = __import__(f'omstatic.rules.{mod}', fromlist=[func])
+        return getattr(m, func)
+    except Exception as e:   # pragma: no cover
+        raise AnalysisError(f'{mod}.{func} not importable: {type(e).__name__}: {e}')
+
+
+@rule('C01.rhs-cache', floor=4)
+def rhs_cache(repo, out):
+    """Reverse-mode solution cache of the linear solvers (LinearRHSChecker) is linear: a hit for c * rhs
+    returns c * cached solution, sign included -- otherwise a reused adjoint solve yields a wrong row of J
+    (same clause as C02.rhscache; C01.loop pins the invalidation through ncompute_totals)."""
+    _reuse('C02', 'rhscache')(repo, out)
+
+
+@rule('C01.unit-factor', floor=4)
+def unit_factor(repo, out):
+    """Assembled jacobians: a connection's unit-conversion factor multiplies the values of its own
+    sub-jacobian exactly once, before they are accumulated into the matrix (never the accumulated entries,
+    which may hold contributions of another input of the same source) -- same clause as C11.factor-once."""
+    _reuse('C11', 'factor_once')(repo, out)
+
+
 # =========================================================================== self-test
 _SOLVE_LOOP_TAIL = (
     "                            jac_setter(inds, mode, imeta)\n\n"
@@ -2977,6 +3120,39 @@ selftest(
            "                        sol_inds = np.arange(start, stop, dtype=INT_DTYPE)\n"
            "                        sol_inds = sol_inds[indices.flat()]",
            "                        sol_inds = indices.flat() + start", 'C01.index-norm'),
+    # ---- driver-order / reused clauses (round-2 seeds)
+    Mutant('wrt-compared-sorted', GROUP,
+           "            if list_wrt != driver_wrt:\n"
+           "                wrt_src_names = [driver._designvars[n]['source'] for n in driver_wrt]\n"
+           "                if list_wrt != wrt_src_names:\n                    has_custom_derivs = True\n\n"
+           "        driver_ordered_nl_resp_names",
+           "            if sorted(list_wrt) != sorted(driver_wrt):\n"
+           "                wrt_src_names = [driver._designvars[n]['source'] for n in driver_wrt]\n"
+           "                if sorted(list_wrt) != sorted(wrt_src_names):\n                    has_custom_derivs = True\n\n"
+           "        driver_ordered_nl_resp_names", 'C01.driver-order'),
+    Mutant('wrt-compared-as-sets', GROUP, "            if list_wrt != driver_wrt:", "            if set(list_wrt) != set(driver_wrt):",
+           'C01.driver-order'),
+    Mutant('wrt-sources-from-designvars-order', GROUP,
+           "wrt_src_names = [driver._designvars[n]['source'] for n in driver_wrt]",
+           "wrt_src_names = [m['source'] for n, m in driver._designvars.items() if n in driver_wrt]",
+           'C01.driver-order'),
+    Mutant('of-sources-in-insertion-order', GROUP,
+           "            of_src_names = [driver._responses[n]['source'] for n in driver_ordered_nl_resp_names]",
+           "            of_src_names = [m['source'] for n, m in driver._responses.items()\n"
+           "                            if n in driver_ordered_nl_resp_names]", 'C01.driver-order', nth=1),
+    Mutant('of-sources-in-insertion-order-of-only', GROUP,
+           "            of_src_names = [driver._responses[n]['source'] for n in driver_ordered_nl_resp_names]",
+           "            of_src_names = [m['source'] for n, m in driver._responses.items()\n"
+           "                            if n in driver_ordered_nl_resp_names]", 'C01.driver-order', nth=0),
+    Mutant('rhs-cache-norm-ratio', 'openmdao/solvers/linear/linear_rhs_checker.py',
+           "scaler = dot_product / rhs_cache_norm**2", "scaler = rhs_norm / rhs_cache_norm", 'C01.rhs-cache'),
+    Mutant('csc-factor-after-accumulate', 'openmdao/matrices/csc_matrix.py',
+           "        if subjac.factor is not None:\n            data = data * subjac.factor\n", "", 'C01.unit-factor',
+           also=[('openmdao/matrices/csc_matrix.py',
+                  "            self._matrix.data[csc_indices] += data\n",
+                  "            self._matrix.data[csc_indices] += data\n"
+                  "        if subjac.factor is not None:\n"
+                  "            self._matrix.data[csc_indices] *= subjac.factor\n")]),
     # ---- mode tables
     Mutant('input-vec-swapped', TJ, "self.input_vec = {'fwd': model._dresiduals, 'rev': model._doutputs}",
            "self.input_vec = {'fwd': model._doutputs, 'rev': model._dresiduals}", 'C01.mode-tables'),
@@ -3218,6 +3394,21 @@ selftest(
                 "                                        self._restore_linear_solution(cache_key, mode)\n"
                 "                                        model._solve_linear(mode)\n"
                 "                                        self._save_linear_solution(cache_key, mode)\n")]),
+    Twin('twin-driver-order-single-test', GROUP,
+         "            if list_wrt != driver_wrt:\n"
+         "                wrt_src_names = [driver._designvars[n]['source'] for n in driver_wrt]\n"
+         "                if list_wrt != wrt_src_names:\n                    has_custom_derivs = True\n\n"
+         "        driver_ordered_nl_resp_names",
+         "            src_names = [driver._designvars[dv]['source'] for dv in driver_wrt]\n"
+         "            if not (list_wrt == driver_wrt or list_wrt == src_names):\n"
+         "                has_custom_derivs = True\n\n"
+         "        driver_ordered_nl_resp_names"),
+    Twin('twin-of-sources-renamed-loop-var', GROUP,
+         "            of_src_names = [driver._responses[n]['source'] for n in driver_ordered_nl_resp_names]",
+         "            of_src_names = [driver._responses[rn]['source'] for rn in list(driver_ordered_nl_resp_names)]",
+         nth='all'),
+    Twin('twin-rhs-cache-scale-rewritten', 'openmdao/solvers/linear/linear_rhs_checker.py',
+         "scaler = dot_product / rhs_cache_norm**2", "scaler = dot_product / (rhs_cache_norm * rhs_cache_norm)"),
     Twin('twin-solve-in-physical-vector-names', DIRECT,
          "            with system._unscaled_context(outputs=[d_outputs], residuals=[d_residuals]):\n"
          "                if isinstance(system._assembled_jac._dr_do_mtx, DenseMatrix):",
